@@ -112,6 +112,45 @@ def blank_comments_strings(src):
     return "".join(out)
 
 
+def select_openmp_branches(clean):
+    """`#ifdef _OPENMP A #else B #endif` -> B blanked (the sites live in the OpenMP build); `#ifndef _OPENMP A #else B #endif` -> A blanked"""
+    out = list(clean)
+    stack = []       # (kind, start of the directive line, position after it)
+    for m in re.finditer(r"(?m)^[ \t]*#[ \t]*(ifdef|ifndef|if|else|elif|endif)\b([^\n]*)", clean):
+        d, rest = m.group(1), m.group(2).strip()
+        if d in ("ifdef", "ifndef", "if"):
+            omp = None
+            if d == "ifdef" and rest == "_OPENMP":
+                omp = True
+            elif d == "ifndef" and rest == "_OPENMP":
+                omp = False
+            elif d == "if" and re.match(r"^defined\s*\(?\s*_OPENMP\s*\)?$", rest):
+                omp = True
+            elif "_OPENMP" in rest:
+                raise TranslatorError("preprocessor condition on _OPENMP of unknown shape: #%s %s" % (d, rest))
+            stack.append([omp, m.end(), None])
+        elif d in ("else", "elif"):
+            if not stack:
+                raise TranslatorError("#else without #if")
+            if stack[-1][0] is not None and d == "elif":
+                raise TranslatorError("#elif in an _OPENMP conditional")
+            stack[-1][2] = (m.start(), m.end())
+        else:
+            if not stack:
+                raise TranslatorError("#endif without #if")
+            omp, begin, els = stack.pop()
+            if omp is None:
+                continue
+            if omp:
+                a, b = (els[1], m.start()) if els else (0, 0)       # blank the #else part
+            else:
+                a, b = begin, (els[0] if els else m.start())        # blank the first part
+            for k in range(a, b):
+                if out[k] != "\n":
+                    out[k] = " "
+    return "".join(out)
+
+
 def match_close(s, i, o, c):
     depth = 0
     n = len(s)
@@ -561,7 +600,7 @@ def classify_region(block_inner, func_text):
 # ---------------------------------------------------------------------------------------------- scan
 def scan_file(repo, rel):
     src = open(os.path.join(repo, rel), errors="replace").read()
-    clean = blank_comments_strings(src)
+    clean = select_openmp_branches(blank_comments_strings(src))
     base_name = os.path.basename(rel)
     sites = []
     prag = [(m.start(), m.group(0)) for m in re.finditer(r"(?m)^[ \t]*#pragma[ \t]+omp\b[^\n]*", clean)]
